@@ -314,6 +314,11 @@ func tmsAddrTrace(args []string) int {
 				continue
 			}
 			w, h := int(tm.MatrixWidth), int(tm.MatrixHeight)
+			// a tile's Z names a tile matrix by its id: the matrix the three functions use for Z = id must be the one the document calls id
+			docID, derr := strconv.Atoi(tm.ID)
+			if derr != nil {
+				docID = -1
+			}
 			tiles := [][2]int{{0, 0}, {w - 1, 0}, {0, h - 1}, {w - 1, h - 1}, {w / 2, 0}, {0, h / 2}, {w - 1, h / 2}, {w / 2, h - 1}}
 			for k := 0; k < *samples; k++ {
 				tiles = append(tiles, [2]int{rng.Intn(w), rng.Intn(h)})
@@ -376,7 +381,7 @@ func tmsAddrTrace(args []string) int {
 						from = []int{int(got.X), int(got.Y)}
 					}
 					out.put(map[string]any{"set": s.name, "z": id, "corner": corner, "w": w, "h": h, "tile": tl, "frac": fr, "from": from,
-						"corner_ok": cornerOK, "bbox_ok": bboxOK, "kind": "inside"})
+						"corner_ok": cornerOK, "bbox_ok": bboxOK, "kind": "inside", "docid": docID})
 				}
 			}
 			// points outside the matrix extent map to no tile
@@ -389,7 +394,7 @@ func tmsAddrTrace(args []string) int {
 						from = []int{int(got.X), int(got.Y)}
 					}
 					out.put(map[string]any{"set": s.name, "z": id, "corner": corner, "w": w, "h": h, "tile": []int{-1, -1}, "frac": []int{0, 0}, "from": from,
-						"corner_ok": true, "bbox_ok": bboxOK, "kind": "outside"})
+						"corner_ok": true, "bbox_ok": bboxOK, "kind": "outside", "docid": docID})
 				}
 			}
 		}
